@@ -46,6 +46,43 @@ theorem degree_step (e : Expr) : degree e = degreeStepG degree vecDegree e := by
   | powSum v k => simp only [degree, degreeStepG]; cases ratNat k <;> rfl
   | _ => simp [degree, degreeStepG]
 
+/-! ### the explicit-stack traversal `_compute_degree_iterative`
+
+`Py.step` (one iteration of the `while stack:` loop; `degreeIter_eq` in C04 relates the machine to the recursion)
+is the function translated from the loop body of the current source: every `continue`, every push in the source's
+order, every `result_stack.pop()` with its IndexError, the three phases, the early exits of `**` and `/`. -/
+
+theorem step_eq (f : Frame) (stk : List Frame) (rs : List Deg) :
+    step f stk rs = degIterStepG degree f stk rs := by
+  unfold step degIterStepG
+  cases hn : f.node with
+  | bin op l r =>
+    simp only []
+    split
+    · rfl
+    · split
+      · cases rs with
+        | nil => rfl
+        | cons x rs' =>
+          simp only []
+          cases op <;> simp <;>
+            (try (cases r <;> simp [expNat, isConstNode] <;> (try (rename_i c; cases c <;> simp [cstNat])) <;>
+                    (try (cases ratNat _ <;> simp)) <;> (try (cases x <;> simp)))) <;>
+            (try (cases x <;> simp))
+      · cases rs with
+        | nil => rfl
+        | cons x rs' =>
+          simp only []
+          cases x <;> cases f.leftDeg <;> simp <;> (try (cases op <;> simp))
+  | un op a => cases op <;> simp <;> (try (split <;> (try rfl) <;> (cases rs <;> rfl)))
+  | _ => simp
+
+/-- the frame around the loop: initial stack `[(expr, 0, None, None)]`, empty result stack, and the read-out
+    `result_stack[-1] if result_stack else None` — what `Py.degreeIter` / `Py.run` transcribe -/
+theorem degIterFrame_text : degIterFrame =
+    ["stack: list[tuple[Expression, int, Optional[int], Optional[int]]] = [(expr, 0, None, None)]",
+     "result_stack: list[Optional[int]] = []", "return result_stack[-1] if result_stack else None"] := rfl
+
 /-! ### Uniqueness: the source's equations have exactly one solution
 
 Any function `f` that satisfies the equations the translator reads off the source
